@@ -39,6 +39,9 @@ PatternFails(ev) ==
          \cup (IF ~ev.pruned /\ ev.massView /\ ev.lightestFirst /\ Resolvable(c, TRUE)
                   /\ ~FWithin(p[1].m, CompMass(c, TRUE), Micro(20 + ev.resolutionSlack))
                THEN {"lightest_peak_is_not_the_monoisotopic_mass"} ELSE {})
+         \cup (IF ~ev.pruned /\ ev.ncMassView /\ ev.lightestFirst /\ Resolvable(c, TRUE)
+                  /\ ~FWithin(p[1].m, CompMass(c, TRUE), Micro(20))
+               THEN {"lightest_peak_of_the_neutron_view_is_not_the_monoisotopic_mass"} ELSE {})
          \cup (IF ~ev.pruned /\ ev.massView /\ Resolvable(c, FALSE) /\ ev.unlabelled /\ FLeq(ev.requested, FInt(100))
                   /\ ~FWithin(SumMA(p), MTimesAFix(CompMass(c, FALSE), SumA(p)), FMulInt(Micro(3000 + ev.resolutionSlack), 1 + SumA(p)[1]))
                THEN {"weighted_mean_is_not_the_average_mass"} ELSE {})
@@ -88,7 +91,17 @@ ExactFails(ev) ==
          \cup (IF \E q \in 1..Len(ev.peaks) : ev.peaks[q].a8 >= 300 /\ ~Close(ExactNear(ev.peaks[q].m), LibNear(ev.peaks[q].m))
                THEN {"returned_peak_not_in_exact_expansion"} ELSE {})
 
+(* k = "threshold": ev.full = the pattern without options, ev.thr = the pattern with min_abundance_threshold = t     *)
+(* (both scaled to a largest peak of 1; abundances in 1e-8 units): thr is exactly the part of full at or above t      *)
+SamePeak(x, y) == FWithin(x.m, y.m, Nano(1000)) /\ x.a8 - y.a8 <= 2 /\ y.a8 - x.a8 <= 2
+ThresholdFails(ev) ==
+    IF ev.out # "ret" THEN {"raised_" \o ev.out}
+    ELSE (IF \E q \in 1..Len(ev.full) : ev.full[q].a8 >= ev.t8 + 3 /\ ~\E r \in 1..Len(ev.thr) : SamePeak(ev.full[q], ev.thr[r])
+          THEN {"peak_above_the_threshold_missing"} ELSE {})
+         \cup (IF \E r \in 1..Len(ev.thr) : ~\E q \in 1..Len(ev.full) : ev.full[q].a8 >= ev.t8 - 3 /\ SamePeak(ev.full[q], ev.thr[r])
+               THEN {"peak_below_the_threshold_kept_or_invented"} ELSE {})
 Fails(ev) == CASE ev.k = "pattern" -> PatternFails(ev)
+               [] ev.k = "threshold" -> ThresholdFails(ev)
                [] ev.k = "exact" -> ExactFails(ev)
                [] ev.k = "bins" -> BinsFails(ev)
                [] ev.k = "merge" -> MergeFails(ev)
